@@ -19,7 +19,7 @@ MANIFEST = {
             "kernels are additionally called for every entity/permutation vector with every buffer placed against a PROT_NONE page.",
     "design_ref": "DESIGN.md section 4 C08, appendix B",
     "note": "Trusted: harness/kexport.py (mechanical flattening of the AST, extents from UFL/basix) and C16's AST<->C binding. "
-            "Bounded: corpus kernels with at most 20k (quick) / 350k (thorough) statement instances; float64 and complex128 ASTs.",
+            "Bounded: corpus kernels with at most 20k (quick) / 250k (thorough) statement instances; float64 and complex128 ASTs.",
 }
 
 
